@@ -7,6 +7,8 @@ CONSTANTS
   FixTrunc = TRUE
   FixGuard = TRUE
   FixOct0 = TRUE
+  FixSkip = TRUE
+  FixUncl = TRUE
   Emit = FALSE
   WithBad = TRUE
 INVARIANT ReqSatisfiable
